@@ -862,6 +862,24 @@ pub fn exec(w: &[&str], obs: &mut Obs) -> Option<String> {
             }
             Some(hex(&canon_floats(&out)))
         }
+        // the tape of an accepted input must satisfy the model's well-formedness hypothesis (the driver
+        // evaluates `wfTapeB` and compares the model's conversion with `jsonOfDoc` of the witness tree)
+        ["wf", tape_s, h] => {
+            let input = unhex(h)?;
+            let case = w.join(" ");
+            match TextTape::from_slice(&input) {
+                Ok(t) => {
+                    if show::text_tape(t.tokens()) != *tape_s {
+                        obs.violation("stale-case", &case, "the tape in the case line is not the tape the parser produces for the input");
+                    }
+                    Some("wf".to_string())
+                }
+                Err(_) => {
+                    obs.violation("stale-case", &case, "the input no longer parses");
+                    Some("parse-error".to_string())
+                }
+            }
+        }
         // implementation-only: all 108 combinations of one input must not panic and must be valid
         ["x-json-all", h] => {
             let input = unhex(h)?;
@@ -944,6 +962,7 @@ fn emit_all(g: &mut Gen, input: &[u8]) -> bool {
     };
     let ts = show::text_tape(t.tokens());
     let h = hex(input);
+    g.emit(format!("wf {} {}", ts, h));
     for o in Opts::all() {
         for enc in ["w", "u"] {
             for entry in ["obj", "arr", "val"] {
@@ -962,6 +981,7 @@ fn emit_some(g: &mut Gen, input: &[u8], k: usize) -> bool {
     };
     let ts = show::text_tape(t.tokens());
     let h = hex(input);
+    g.emit(format!("wf {} {}", ts, h));
     let all = Opts::all();
     for i in 0..k {
         let o = *g.rng.pick(&all);
@@ -1013,7 +1033,7 @@ pub fn gen(g: &mut Gen) {
         b"a = { b > 1 b < 2 b = 3 }", b"a = { 1 b > 2 c = hsv { 1 2 3 } }", b"a = { rgb { 1 2 3 } }", b"a = { x rgb { 1 2 3 } y }", b"a = hsv { 0.5 0.5 0.5 } a = rgb { 1 2 3 }",
         b"a = {} b = { } c = { {} }", b"a = { { 1 } { 2 } }", b"a = { {b=1} {c=2} }", b"{} a=b", b"a={ {} b=c }", b"a = b = c", b"a = { b = { c = { d = { e = f } } } }",
         b"name=a core=b core=c name=d core=e", b"\"a\"=1 a=2 \"a \"=3", b"a=1 a={ [[a] b=c ] a=2 [[!a] d=e ] }", b"k=LIST { a=b c=d }", b"k={ a=b LIST { 1 2 } }",
-        b"k = { a = b c }", b"k = { a b = c }", b"k = { a = { b } c d = e }", b"k = { 1 = 2 3 = 4 5 }", b"k = { a=1 b c=2 }",
+        b"k = { a = b c }", b"k = { a b = c }", b"k = { a = { b } c d = e }", b"k = { 1 = 2 3 = 4 5 }", b"k = { a=1 b c=2 }", b"b = 3]0 c = {} d = rgb { 1 }", b"mixed={ a=b 10 color = rgb { 1 2 3 } }", b"a < e = 1 b = rgb { 1 }", b"x={ a=1 [ b=2 c }",
     ];
     for f in &fixed {
         if !emit_all(g, f) {
